@@ -142,7 +142,17 @@ def check_C02(chk, tier):
     check_factor(chk, ["C02."], tier, "C02")
 
 
+def c03_relax(chk, tier):
+    """E1: relax_snode / heap_relax_snode for every elimination tree of order <= 5 (7 thorough) and every relax parameter"""
+    chk.assumptions += ["E1 relaxed supernodes: the parent vector of the tree and the relax parameter are symbolic (heap-ordered trees; postordered ones for relax_snode, as ?gstrf passes them); a relaxed supernode must be a non-empty range, disjoint from the others, closed under children (?gstrf applies no update from earlier columns to it) and hold at most relax columns"]
+    nb = 5 if tier == "quick" else 7
+    src = [E1H + "h03relax.c"] + [REPO + "/SRC/" + f for f in ("relax_snode.c", "heap_relax_snode.c", "sp_coletree.c", "memory.c", "util.c")]
+    hs = [e1.Harness("c03_relax_m%d_n%d" % (md, n), src, defs=["-DPREC_D", "-DNB=%d" % nb, "-DMODE=%d" % md, "-DFIX_N=%d" % n], unwind=nb + 3, timeout=1500) for md in (0, 1) for n in range(1, nb + 1)]
+    e1.run_harnesses(chk, hs, "C03 relaxed supernodes for every elimination tree", "every heap-ordered (mode 1) / postordered (mode 0) elimination tree with n <= %d, relax parameter 1..%d" % (nb, nb + 1))
+
+
 def check_C03(chk, tier):
+    c03_relax(chk, tier)
     chk.assumptions += COMMON_ASSUME + ["structure clauses are integer facts evaluated on each symbolic path; the solver decides which pivot sequences (hence structures) are feasible"]
     check_factor(chk, ["C03."], tier, "C03")
 
